@@ -803,6 +803,72 @@ def two_port_types_with_one_operation_name(ctx):
                     return
 
 
+def groups_twice_ref_defaults_and_shared_names(ctx):
+    """(a) a named group referred to twice in one content model reads like the group's content written out twice;
+    (b) a reference to a global element that declares a default reads like the declaration written in place; (c) an
+    element and a complex type that share a qualified name keep their meanings under every order of declaration."""
+    T = "{%s}" % wsdlkit.TNS
+
+    def req(c, *a):
+        env = wsdlkit.envelope_bytes(c.service.f(*a))
+        fn = xmlread.find1(xmlread.find1(xmlread.parse(env), "Body"), "f")
+        return [[k["name"][1], k.get("text")] for k in fn["children"]]
+    grp = ('<xsd:group name="P"><xsd:sequence><xsd:element name="lat" type="xsd:int"/><xsd:element name="lon" '
+           'type="xsd:int"/></xsd:sequence></xsd:group>')
+    inl = '<xsd:sequence><xsd:element name="lat" type="xsd:int"/><xsd:element name="lon" type="xsd:int"/></xsd:sequence>'
+    shape = ('<xsd:element name="f"><xsd:complexType><xsd:sequence>%s<xsd:element name="via" type="xsd:string"/>%s'
+             '</xsd:sequence></xsd:complexType></xsd:element>')
+    renderings = {"group-first": grp + shape % ('<xsd:group ref="x:P"/>', '<xsd:group ref="x:P"/>'),
+                  "group-last": shape % ('<xsd:group ref="x:P"/>', '<xsd:group ref="x:P"/>') + grp,
+                  "group-then-inline": grp + shape % ('<xsd:group ref="x:P"/>', inl), "inline": shape % (inl, inl)}
+    want = [["lat", "lon", "via", "lat", "lon"], [["lat", "1"], ["lon", "2"], ["via", "v"], ["lat", "3"], ["lon", "4"]]]
+    for rname, sc in renderings.items():
+        meta = {"stream": "group-referred-to-twice", "rendering": rname}
+        ctx.case(common.canon(meta), True)
+        try:
+            c = wsdlkit.client(wsdlkit.wsdl_doc(sc, "f", None), nosend=True)
+            m = c.service.f.method
+            got = [[str(d[0]) for d in m.binding.input.param_defs(m)], req(c, 1, 2, "v", 3, 4)]
+        except Exception as e:
+            got = "%s: %s" % (type(e).__name__, e)
+        if got != want:
+            ctx.fail("two renderings of one interface build different clients", meta, repr(got), repr(want), kind="request")
+    rest = '<xsd:element name="e" type="xsd:string"/></xsd:sequence></xsd:complexType></xsd:element>'
+    renderings = {"ref": '<xsd:element name="d" type="xsd:string" default="dflt"/><xsd:element name="f"><xsd:complexType>'
+                         '<xsd:sequence><xsd:element ref="x:d"/>' + rest,
+                  "ref-declared-after": '<xsd:element name="f"><xsd:complexType><xsd:sequence><xsd:element ref="x:d"/>' + rest
+                                        + '<xsd:element name="d" type="xsd:string" default="dflt"/>',
+                  "in-place": '<xsd:element name="f"><xsd:complexType><xsd:sequence><xsd:element name="d" type="xsd:string" '
+                              'default="dflt"/>' + rest}
+    want = [[["d", "dflt"], ["e", "x"]], [["d", "given"], ["e", "x"]]]
+    for rname, sc in renderings.items():
+        meta = {"stream": "referenced-default", "rendering": rname}
+        ctx.case(common.canon(meta), True)
+        try:
+            c = wsdlkit.client(wsdlkit.wsdl_doc(sc, "f", None), nosend=True)
+            got = [req(c, None, "x"), req(c, "given", "x")]
+        except Exception as e:
+            got = "%s: %s" % (type(e).__name__, e)
+        if got != want:
+            ctx.fail("two renderings of one interface build different clients", meta, repr(got), repr(want), kind="request")
+    el = ('<xsd:element name="Item"><xsd:complexType><xsd:sequence><xsd:element name="a" type="xsd:string"/></xsd:sequence>'
+          '</xsd:complexType></xsd:element>')
+    ty = '<xsd:complexType name="Item"><xsd:sequence><xsd:element name="b" type="xsd:string"/></xsd:sequence></xsd:complexType>'
+    f = ('<xsd:element name="f"><xsd:complexType><xsd:sequence><xsd:element name="i" type="x:Item"/><xsd:element ref="x:Item"/>'
+         '</xsd:sequence></xsd:complexType></xsd:element>')
+    for order in itertools.permutations([("element", el), ("type", ty), ("user", f)]):
+        meta = {"stream": "element-and-type-share-a-name", "order": [o[0] for o in order]}
+        ctx.case(common.canon(meta), True)
+        try:
+            c = wsdlkit.client(wsdlkit.wsdl_doc("".join(o[1] for o in order), "f", None), nosend=True)
+            got = [[k for k, _v in c.factory.create(T + "Item")], [[k for k, _v in v] for _k, v in c.factory.create(T + "f")]]
+        except Exception as e:
+            got = "%s: %s" % (type(e).__name__, e)
+        if got != [["a"], [["b"], ["a"]]]:
+            ctx.fail("two renderings of one interface build different factory objects", meta, repr(got),
+                     repr([["a"], [["b"], ["a"]]]), kind="factory")
+
+
 def prefix_numbering(ctx):
     """The generated prefixes (ns0, ns1, ...: what str(client) shows and factory.create('nsN:Type') understands) do not
     depend on the order in which a WSDL declares its schema blocks and types - with namespace sorting on or off."""
@@ -856,6 +922,7 @@ def run(ctx):
     several_blocks_of_one_namespace(ctx)
     nested_attribute_groups(ctx)
     two_port_types_with_one_operation_name(ctx)
+    groups_twice_ref_defaults_and_shared_names(ctx)
     ctx.sample({"graph": [[1, [2, 3]], [2, [1]], [3, []]], "note": "D14 witness graph"})
 
 
